@@ -314,7 +314,7 @@ func (m *locker) try(ctx context.Context, cancel context.CancelFunc, name string
 		}
 	}
 
-	acquire := func(err error, key string, ch chan struct{}, force bool) error {
+	acquire := func(err error, key string, ch chan struct{}, force bool, count bool) error {
 		select {
 		case <-ch:
 		default:
@@ -331,22 +331,25 @@ func (m *locker) try(ctx context.Context, cancel context.CancelFunc, name string
 				m.mu.RUnlock()
 			}
 		}
+		if count { // before the monitor starts: it reads failures to tell a finished lock from a failed attempt
+			if err == nil {
+				atomic.AddInt32(&acquired, 1)
+			} else {
+				atomic.AddInt32(&failures, 1)
+			}
+		}
 		go monitoring(err, key, deadline, ch)
 		return err
 	}
 
 	var i int32
 	for ; atomic.LoadInt32(&acquired) < m.majority && atomic.LoadInt32(&failures) < m.majority; i++ {
-		if err = acquire(err, keyname(m.prefix, name, i), g.csc[i], force); err == nil {
-			atomic.AddInt32(&acquired, 1)
-		} else {
-			atomic.AddInt32(&failures, 1)
-		}
+		err = acquire(err, keyname(m.prefix, name, i), g.csc[i], force, true)
 	}
 	if i < m.totalcnt {
 		go func(i int32, err error) {
 			for ; i < m.totalcnt; i++ {
-				err = acquire(err, keyname(m.prefix, name, i), g.csc[i], force)
+				err = acquire(err, keyname(m.prefix, name, i), g.csc[i], force, false)
 			}
 		}(i, err)
 	}
